@@ -232,6 +232,55 @@ def install_sync_hooks():
     rx._ReusablePoolExecutor.submit = submit
 
 
+def install_wakeup_race_hooks():
+    """Scenario option `hooks: "wakeup-close"`: place the CALLER thread, inside `executor.shutdown()` -> `wakeup()`, between
+    the wake-up pipe's closed-test and its write, against the manager thread's `close()` of that pipe at the end of its
+    tear-down.  The write of the caller is held (at most 1 s) until `close()` of the same pipe object has been ENTERED.
+    With the two mutually excluded (as the code has it: both under the executor's shutdown lock) the manager cannot enter
+    `close()` meanwhile, the hold times out and nothing changes.  No source change; wrappers in this process only."""
+    from joblib.externals.loky import process_executor as pe
+
+    TW = pe._ThreadWakeup
+    orig_init, orig_close = TW.__init__, TW.close
+
+    class _Writer:
+        def __init__(self, w, owner):
+            self._w, self._owner = w, owner
+
+        def send_bytes(self, *a, **k):
+            me = threading.current_thread().name
+            if not me.startswith("ExecutorManagerThread"):
+                f, in_shutdown = sys._getframe(1), False
+                while f is not None:
+                    if f.f_code.co_name == "shutdown" and f.f_code.co_filename.endswith("process_executor.py"):
+                        in_shutdown = True
+                        break
+                    f = f.f_back
+                if in_shutdown:
+                    t0 = time.time()
+                    got = self._owner._verif_closing.wait(1.0)
+                    emit(dict(ev="wakeup-write-held", close_entered=bool(got), held=round(time.time() - t0, 3)))
+                    if got:
+                        time.sleep(0.05)  # let close() finish
+            return self._w.send_bytes(*a, **k)
+
+        def __getattr__(self, name):
+            return getattr(self._w, name)
+
+    def __init__(self, *a, **k):
+        orig_init(self, *a, **k)
+        self._verif_closing = threading.Event()
+        self._writer = _Writer(self._writer, self)
+
+    def close(self, *a, **k):
+        ev = getattr(self, "_verif_closing", None)
+        if ev is not None:
+            ev.set()
+        return orig_close(self, *a, **k)
+
+    TW.__init__, TW.close = __init__, close
+
+
 # ----------------------------------------------------------------------------- main
 
 
@@ -245,6 +294,8 @@ def main():
     uses_sync = any((c.get(k) or {}).get("sync") for c in sc["calls"] for k in ("pre", "startup"))
     if uses_sync:
         install_sync_hooks()
+    if sc.get("hooks") == "wakeup-close":
+        install_wakeup_race_hooks()
     emit(dict(ev="start", joblib=os.path.dirname(joblib.__file__), pid=os.getpid()))
     parent = os.getpid()
     n_jobs = sc["n_jobs"]
